@@ -37,7 +37,7 @@ class Log:
         return 100
 
 
-def scenario(max_depth: int = 120, max_steps: Optional[int] = None) -> C.Scenario:
+def scenario(max_depth: int = 120, max_steps: Optional[int] = 2000000) -> C.Scenario:
     sc = C.Scenario()
     sc.run_constructors = True
     sc.real_objects = True
@@ -45,6 +45,7 @@ def scenario(max_depth: int = 120, max_steps: Optional[int] = None) -> C.Scenari
     sc.apply_decorators = True
     sc.ctypes_model = True
     sc.max_depth = max_depth
+    sc.max_loop = 100000  # (whole programs run here; runaway loops are caught by the step bound)
     if max_steps:
         sc.max_steps = max_steps
     sc.overrides["get_netqasm_logger"] = lambda *a_, **k_: Log()
@@ -159,3 +160,48 @@ def nv_transpile(world: ExecutorWorld, subroutine):
     t = world.repo.get_class("netqasm.sdk.transpile", "NVSubroutineTranspiler")
     o = world.I.construct(t, [subroutine], {}, None)
     return outcome(world.I.method, o, "transpile", [], {}, None)
+
+
+def trace_unitaries(trace: List[Tuple], n_qubits: int):
+    """the recorded quantum operations as a list of segments: ("u", unitary of the gates between two non-unitary events) and the
+    non-unitary events themselves (("init", q) / ("meas", q)), in order"""
+    import numpy as np
+    out: List[Any] = []
+    U = np.eye(2 ** n_qubits, dtype=complex)
+    dirty = False
+    for mn, qs, angle in trace:
+        if mn in ("init", "meas"):
+            out.append(("u", U))
+            out.append((mn,) + tuple(qs))
+            U = np.eye(2 ** n_qubits, dtype=complex)
+            dirty = False
+            continue
+        if any(not isinstance(q_, int) or not (0 <= q_ < n_qubits) for q_ in qs):
+            raise AnalysisError(f"recorded operation {mn} on qubits {qs} outside the {n_qubits} qubits of the program")
+        if mn in C.STATIC:
+            op = C.STATIC[mn]
+        elif mn in ("rot_x", "rot_y", "rot_z"):
+            op = C.rot(mn[-1], angle)
+        elif mn in ("crot_x", "crot_y", "crot_z"):
+            op = C.crot_vec(C.AXIS[mn[-1]], angle)
+        else:
+            raise AnalysisError(f"recorded operation {mn!r} has no operator semantics in the checker")
+        U = C.embed(op, list(qs), n_qubits) @ U
+        dirty = True
+    out.append(("u", U))
+    return out
+
+
+def same_behaviour(t1, t2) -> Optional[str]:
+    """None when two segment lists describe the same evolution (unitaries equal up to a global phase, same non-unitary events)"""
+    if len(t1) != len(t2):
+        return f"{sum(1 for x in t1 if x[0] != 'u')} vs {sum(1 for x in t2 if x[0] != 'u')} initialisations / measurements"
+    for k_, (a, b) in enumerate(zip(t1, t2)):
+        if a[0] != b[0]:
+            return f"event {k_}: {a[0]} vs {b[0]}"
+        if a[0] == "u":
+            if not C.equal_up_to_phase(a[1], b[1]):
+                return f"the gates of segment {k_ // 2} do not multiply to the same operator"
+        elif a != b:
+            return f"event {k_}: {a} vs {b}"
+    return None
